@@ -246,10 +246,14 @@ def check_case(case):
 ROW_DOMAIN = [('a', 1), ('a', 2), ('b', 1), ('b', 2)]
 
 
-def tables(maxrows):
-  """Tables of up to 2 rows over the 4-value row domain; 3-row tables over its first 3 values."""
+def tables(tier):
+  """
+  thorough: tables of up to 2 rows over the 4-value row domain, 3-row tables over its first 3
+  values; quick: up to 1 row over the 4 values, 2-row tables over the first 3 values.
+  """
+  maxrows, wide = (2, 1) if tier == 'quick' else (3, 2)
   for n in range(maxrows + 1):
-    for rows in itertools.product(ROW_DOMAIN if n <= 2 else ROW_DOMAIN[:3], repeat=n):
+    for rows in itertools.product(ROW_DOMAIN if n <= wide else ROW_DOMAIN[:3], repeat=n):
       yield [list(r) for r in rows]
 
 
@@ -376,12 +380,12 @@ def work(args):
 def run(tier, report):
   maxrows = 2 if tier == 'quick' else 3
   base_snap()
-  tabs = list(tables(maxrows))
+  tabs = list(tables(tier))
   n_core = sum(1 for _ in cases_for_table([1, 2, 3], 'quick'))
   n_full = sum(1 for _ in cases_for_table([], 'thorough'))
   E = Enum(report, rule=(
       'table T(k Text, k2 Int, v Text) holding every row list of length <= %d over k in {a,b} x '
-      'k2 in {1,2} (3-row lists over {(a,1),(a,2),(b,1)}; v distinct) x an argument set: %s. '
+      'k2 in {1,2} (the longest lists only over {(a,1),(a,2),(b,1)}; v distinct) x an argument set: %s. '
       'full set (%d per table): BulkAddOrUpdateRecord with 0..2 input rows, require in {none, k, '
       'k+k2, k2} with matching / non-matching / repeated keys x col_values in {none, v, v+k '
       '(overwrites the key), k2}, 5 mismatched-length shapes, AddOrUpdateRecord with all one-row '
